@@ -79,6 +79,9 @@ type neighWorld struct {
 	pending  []*pendingSend
 	nsent    int
 	flooded  bool
+	ep6      tcpip.Endpoint
+	gen6     [3]int
+	learned6 map[int]tcpip.LinkAddress
 	ev       int64
 }
 
@@ -226,6 +229,9 @@ func (w *neighWorld) trySend(dst tcpip.Address) {
 		ts := w.reqTimes[hop]
 		if len(ts) == 0 {
 			w.Fail("failed-without-trying", "", "Write to % x failed with no-link-address although the stack never sent a request for next hop % x", []byte(dst), []byte(hop))
+		} else if age := w.now() - ts[len(ts)-1]; age > 61*time.Second && !w.flooded {
+			// a failed resolution is a cached outcome like any other: it expires with its entry
+			w.Fail("expired-entry-used", "", "Write to % x failed at once with no-link-address; the last request for next hop % x was sent %v ago, so the failed outcome it reports expired (entries live 60 s) and a new resolution was due", []byte(dst), []byte(hop), age)
 		}
 		w.Probes["sends_failed_no_link_address"]++
 	}
@@ -439,6 +445,8 @@ func (w *neighWorld) apply(s Step) {
 		w.Probes["cache_ring_wrapped"]++
 		w.flooded = true
 		w.observe()
+	case "send6":
+		w.send6(s)
 	case "adv":
 		w.Advance(time.Duration(s.D))
 		w.observe()
@@ -446,9 +454,96 @@ func (w *neighWorld) apply(s Step) {
 	}
 }
 
+func neigh6(k int) tcpip.Address {
+	b := []byte(A6)
+	b[15] = byte(0x20 + k)
+	return tcpip.Address(b)
+}
+
+// send6: a datagram to an IPv6 neighbour. The stack solicits the neighbour; the
+// neighbour advertises itself - with the target link-layer address option alone
+// or behind another option - and the datagram must then
+// go to the link address the advertisement came from.
+func (w *neighWorld) send6(s Step) {
+	k := s.A % 3
+	dst := neigh6(k)
+	mac := tcpip.LinkAddress([]byte{2, 0x66, 0, 0, byte(w.gen6[k]), byte(k)})
+	if w.ep6 == nil {
+		return
+	}
+	w.Take()
+	w.nsent++
+	payload := dmPayload(w.seed, 100000+w.nsent)
+	write := func() (*tcpip.Error, <-chan struct{}) {
+		_, ch, err := w.ep6.Write(tcpip.SlicePayload(append([]byte(nil), payload...)), tcpip.WriteOptions{To: &tcpip.FullAddress{Addr: dst, Port: 9000}})
+		w.Settle()
+		return err, ch
+	}
+	err, ch := write()
+	if err == tcpip.ErrWouldBlock && ch != nil {
+		// answer the solicitation
+		solicited := false
+		for _, d := range w.Take() {
+			if d.ICMP != nil && d.IP != nil && d.IP.V6 && d.ICMP.Type == 135 && len(d.ICMP.Body) >= 20 && bytes.Equal(d.ICMP.Body[4:20], []byte(dst)) {
+				solicited = true
+			}
+		}
+		if !solicited {
+			w.Fail("request-not-broadcast", "", "a send to IPv6 neighbour % x waits for resolution but no neighbour solicitation for it was emitted", []byte(dst))
+			return
+		}
+		if s.C%4 == 3 {
+			// the neighbour has a new link address this time
+			w.gen6[k]++
+			mac = tcpip.LinkAddress([]byte{2, 0x66, 0, 0, byte(w.gen6[k]), byte(k)})
+		}
+		body := append([]byte(nil), []byte(dst)...)
+		tlla := append([]byte{2, 1}, []byte(mac)...)
+		other := []byte{14, 1, 0xde, 0xad, 0xbe, 0xef, 0x00, 0x01} // a nonce option (RFC 3971), 8 bytes
+		// (an advertisement answering a multicast solicitation always carries the target
+		// link-layer address option, RFC 4861 4.4: one without it may be ignored and is not sent)
+		switch s.B % 2 {
+		case 0:
+			body = append(body, tlla...)
+		case 1:
+			body = append(append(body, other...), tlla...)
+			w.Probes["advertisement_with_another_option_first"]++
+		}
+		msg := codec.EncodeICMPv6([]byte(dst), []byte(A6), 136, 0, 0x60000000, body)
+		w.Inject(w.S.Link, ipv6.ProtocolNumber, codec.IPv6([]byte(dst), []byte(A6), codec.ProtoICMPv6, 255, msg), mac, stackMAC, 0)
+		w.learned6[k] = mac
+		select {
+		case <-ch:
+		default:
+			w.Fail("waiter-not-woken-by-reply", "", "a send waits for IPv6 neighbour % x; its advertisement arrived and the waiter was not notified", []byte(dst))
+			return
+		}
+		err, _ = write()
+	}
+	if err != nil {
+		w.Probes["send6_failed"]++
+		return
+	}
+	for _, d := range w.Take() {
+		if d.UDP != nil && d.IP.V6 && bytes.Equal(d.UDP.Payload, payload) {
+			want, known := w.learned6[k]
+			switch {
+			case !known:
+				w.Fail("sent-before-resolution", "", "IPv6 datagram for neighbour % x was put on the wire although that neighbour never advertised itself", []byte(dst))
+			case d.F.DstMAC != want:
+				w.Fail("wrong-link-address", "", "IPv6 datagram for neighbour % x sent to link address % x; its advertisement came from % x", []byte(dst), []byte(d.F.DstMAC), []byte(want))
+			default:
+				w.Probes["ipv6_data_frames_after_resolution"]++
+			}
+		}
+	}
+}
+
 func (w *neighWorld) next(cfg NeighCfg) Step {
 	r := w.Rng
-	switch r.Pick(8, 6, 4, 2, 8, 1) {
+	switch r.Pick(8, 6, 4, 2, 8, 1, 3) {
+	case 6:
+		return Step{Op: "send6", A: r.Intn(3), B: r.Intn(3), C: r.Intn(4)}
 	case 0:
 		return Step{Op: "send", A: r.Intn(6), B: r.Pick(4, 1)}
 	case 1:
@@ -488,6 +583,11 @@ func (scNeigh) Run(t *testing.T, prop string, seed uint64, cfgRaw json.RawMessag
 		must(err, "udp endpoint")
 		must(ep.Bind(tcpip.FullAddress{Addr: A4, Port: 4000}, nil), "bind")
 		w.ep = ep
+		if ep6, err := w.S.S.NewEndpoint(udp.ProtocolNumber, ipv6.ProtocolNumber, &waiter.Queue{}); err == nil {
+			if ep6.Bind(tcpip.FullAddress{Addr: A6, Port: 4006}, nil) == nil {
+				w.ep6, w.learned6 = ep6, map[int]tcpip.LinkAddress{}
+			}
+		}
 		w.Settle()
 		if steps == nil {
 			for i := 0; i < cfg.MaxSteps && w.Viol == nil; i++ {
@@ -513,6 +613,9 @@ func (scNeigh) Run(t *testing.T, prop string, seed uint64, cfgRaw json.RawMessag
 		}
 		w.OnEmit = nil
 		w.ep.Close()
+		if w.ep6 != nil {
+			w.ep6.Close()
+		}
 		w.Advance(5 * time.Second)
 		finish(w.World, o)
 		if w.Replay {
